@@ -26,7 +26,10 @@ type BlockReader struct {
 	offset     uint64
 	v1offset   uint64
 	readerSize int64
-	opts       Options
+	// base is where in a seekable source the archive began (the source need not
+	// have been at position 0 when it was handed over); offsets are counted from there.
+	base int64
+	opts Options
 }
 
 // NewBlockReader instantiates a new BlockReader facilitating iteration over blocks in CARv1 or
@@ -216,6 +219,7 @@ func (br *BlockReader) SkipNext() (*BlockMetadata, error) {
 			br.readerSize = readerSizeUnseekable
 		} else {
 			br.readerSize = end
+			br.base = cur - int64(br.offset) - int64(lenSize) - int64(cidSize)
 			if _, err = brs.Seek(cur, io.SeekStart); err != nil {
 				return nil, err
 			}
@@ -242,7 +246,7 @@ func (br *BlockReader) SkipNext() (*BlockMetadata, error) {
 		if err != nil {
 			return nil, err
 		}
-		if finalOffset != int64(br.offset)+int64(lenSize)+int64(sectionSize) {
+		if finalOffset-br.base != int64(br.offset)+int64(lenSize)+int64(sectionSize) {
 			return nil, errors.New("unexpected length")
 		}
 		if finalOffset > br.readerSize {
